@@ -39,6 +39,20 @@ def is_self_field(e, *names, selfname="self"):
     return e.k == "arg" and (selfname is None or e.x["name"] == selfname)
 
 
+def reader_meta_field(F, e):
+    """the trailer field a value is read from, through `Reader`'s accessor or straight from `<reader>.metadata`:
+    (field name, the reader expression), else None"""
+    x = e.strip()
+    if x.k == "call" and x.a and x.x["path"].startswith("reader::Reader::<R>::") and F.has_body(x.x["path"]):
+        r = F.body(x.x["path"]).expr_at_return().strip()
+        if r.k == "field" and is_self_field(r.a[0], "metadata"):
+            return r.x["name"], x.a[0].strip()
+        return None
+    if x.k == "field" and x.a[0].strip().k == "field" and x.a[0].strip().x["name"] == "metadata":
+        return x.x["name"], x.a[0].strip().a[0].strip()
+    return None
+
+
 def is_arg(e, name):
     e = e.strip()
     return e.k == "arg" and e.x["name"] == name
